@@ -64,7 +64,8 @@ theorem cldNom_down (a : Agent) (id : Nat) (m : Msg) (hi : Inv3 a) (hm : Marked 
       simp only [Option.bind_some, hsp] at hsw
       have e1 : (sp.id == id) = false := by rw [hspid]; simpa using hne
       rw [(cldLite_frame a id).1] at hsw
-      simpa [e1, hnom, hneed] using hsw
+      simp [e1, hnom, hneed] at hsw
+      exact hsw.2
     refine ⟨⟨sp, hspm, hspid⟩, ⟨p, hpm, hpid⟩, ?_⟩
     intro p' hp' q' hq' e1 e2
     rw [mem_unique hd.ids hp' hspm (e1.trans hspid.symm), mem_unique hd.ids hq' hpm (e2.trans hpid.symm)]
@@ -124,15 +125,16 @@ theorem hsSel_down (a : Agent) (p : Pair) (pd : Pending) (hi : Inv3 a) (hneed : 
     rw [mem_unique hi.ids hp' hspm (e1.trans hspid.symm), mem_unique hi.ids hq' hqm (e2.trans hqid.symm),
       pairPrio_congr a hqf]
     exact hle
-  unfold hsSel at hs' ⊢
+  generalize hres : hsSel a p pd = res at hs' ⊢
+  unfold hsSel at hres
   simp only [hdef, hs, hpd, Option.isSome_none, Option.isNone_some, Option.bind_some, hsp,
-    Bool.false_eq_true, if_false] at hs' ⊢
-  repeat' split at hs'
+    Bool.false_eq_true, if_false] at hres
+  repeat' split at hres
+  all_goals subst hres
   all_goals first
     | exact absurd hs' (fun h => hsame _ rfl h)
     | skip
-  rename_i h1 h2 h3
-  simp only [h1, h2, h3, if_true, Bool.false_eq_true, if_false]
+  rename_i h3
   refine hsel _ rfl hs' ?_
   simp only [hneed, Bool.not_true, Bool.false_or, Bool.and_eq_true, decide_eq_true_eq] at h3
   exact h3.2
@@ -163,7 +165,11 @@ theorem handleSuccess_down (a : Agent) (now : Nat) (m : Msg) (l r : Cand) (src :
         simp only [hpdeq, hsym, hfp, if_false]
         have hpm : p ∈ a1.checklist := findPair_mem hfp
         have hi2 : Inv3 (a1.modPair p.id (hsMark pd)) := ((hsMark_pres (wp := True) (ex := True) a1 p.id pd) hi1).1
-        have hs3 : (hsSel (a1.modPair p.id (hsMark pd)) p pd).1.selected = some qid := hs'
+        have hs3 : (hsSel (a1.modPair p.id (hsMark pd)) p pd).1.selected = some qid := by
+          have h3 : (hsFin (a1.modPair p.id (hsMark pd)) p pd (hsSel (a1.modPair p.id (hsMark pd)) p pd).1).selected
+              = some qid := hs'
+          rw [hsFin_selected] at h3
+          exact h3
         have hqid : qid = p.id := by
           rcases hsSel_cases (a1.modPair p.id (hsMark pd)) p pd with h | ⟨h, _⟩
           · rw [h] at hs3; exact absurd hs3 hsame
@@ -179,8 +185,11 @@ theorem handleSuccess_down (a : Agent) (now : Nat) (m : Msg) (l r : Cand) (src :
             have := mem_updPair_of_mem (id := p.id) (f := hsMark pd) hpm
             simp only [beq_self_eq_true, if_true] at this
             exact this, rfl, rfl, fun _ hu => by simp [hsMark, hu], fun _ hn => (hi1.pairs p hpm).deferred hn⟩
-        exact hw.mono ((modPair_core (wp := True) (ex := True) _ p.id (fun p => { p with respRecv := p.respRecv + 1 })
-          (fun p => ⟨rfl, rfl, rfl, rfl, rfl, rfl, rfl, rfl, rfl, rfl, rfl, rfl⟩)) (hk.inv hi2)).2.toRel
+        have hF := hsFin_pres (wp := True) (ex := True) (a1.modPair p.id (hsMark pd)) p pd
+          (hsSel (a1.modPair p.id (hsMark pd)) p pd).1 (hk.inv hi2)
+        exact hw.mono (hF.2.toRel.trans
+          ((modPair_core (wp := True) (ex := True) _ p.id (fun p => { p with respRecv := p.respRecv + 1 })
+            (fun p => ⟨rfl, rfl, rfl, rfl, rfl, rfl, rfl, rfl, rfl, rfl, rfl, rfl⟩)) hF.1).2.toRel)
 
 /-! ## `handleInbound` and `step` -/
 
